@@ -1,5 +1,5 @@
 """C01 jobs: VPSC -- satisfied on return or reported (DESIGN.md section 5, C01)."""
-import os
+import os, importlib.util
 from vf import *
 from common import *
 import layout
@@ -497,6 +497,8 @@ def _jobs(tier, fl):
                   domain="every block state over 4 variables in which one out-constraint of lv is an active inequality to rv and the active constraints form a tree "
                          "(assumed: no second active connection lv-rv; the recursive search through any other constraint does not reach rv)",
                   expect=[r'h_findMinLM\.assertion', r'unwind']))
+    # (Block::isActiveDirectedPathBetween -- the "cycle found" evidence -- was tried as a bounded plain harness: 3 variables, <= 2 acyclic constraints, answer == reachability
+    #  along active in-block constraints.  cbmc did not finish in 600 s / 240 s (recursion x iterator loops), so it is NOT under obligation; seed C01-2 stays a miss.)
     if AV:
         # the libavoid copy lives in namespace Avoid: generated wrappers/shims and loop-contract symbols are renamed accordingly
         import json as _json
@@ -515,7 +517,18 @@ def _jobs(tier, fl):
 
 
 def jobs(tier):
-    return _jobs(tier, "libvpsc") + _jobs(tier, "libavoid")
+    js = _jobs(tier, "libvpsc") + _jobs(tier, "libavoid")
+    # ---- the work list of IncSolver::satisfy: mostViolated() takes out of `inactive` exactly the constraint it returns (job of the C15 check, where it
+    #      carries the memory-safety obligations; run here for its no-drop postconditions: a constraint silently lost from the work list would never be
+    #      enforced nor flagged)
+    sp = importlib.util.spec_from_file_location("jobs_C15_for_C01", os.path.join(VERIF, "contracts", "C15", "jobs.py"))
+    m15 = importlib.util.module_from_spec(sp); sp.loader.exec_module(m15)
+    j = m15.mostViolated_job()
+    j.name = "worklist_pick_removes_only_what_it_returns"
+    j.replay = replay_flag
+    j.note = (j.note + " " if j.note else "") + "[job of the C15 check, run here as well]"
+    js.append(j)
+    return js
 
 
 LEVEL = "proof"
@@ -549,4 +562,4 @@ EXPLANATION = ("[Both copies of the solver are under contract: libvpsc (jobs wit
                "IncSolver::satisfy, Solver::satisfy and Solver::refine (tail fragments, loop contracts, any m) leave no constraint with slack < -1e-10 on "
                "normal return from EVERY state the merge/split machinery could produce; solve()/IncSolver::solve() keep that up to their return and copy the "
                "positions last; addConstraint adds an inactive constraint and nothing else; one iteration of the merge/split loop of IncSolver::satisfy relaxes (flags) a constraint "
-               "only on evidence from its callees (cycle found, nothing to split, unsatisfiability reported).")
+               "only on evidence from its callees (cycle found, nothing to split, unsatisfiability reported); mostViolated() takes out of the work list exactly the constraint it returns (libvpsc copy).")
